@@ -19,7 +19,17 @@ RULE = (
     "the closed-form over-sampled grid pushed through an affine / sinusoidal warp, then a drawn set of points pushed "
     "outward by 1.5-4x (sometimes 10-100x), pulled inward, and set exactly onto border points; mesh vertices drawn "
     "over [-1.5,2.5]^2 of the grid's bounding box, some pulled towards the border centroid, some set onto border points. mesh: the same scenes through "
-    "mesh.Rectangular / Delaunay / Voronoi .mapper_grids_from(border_relocator=...). subborder: sub_border_slim / "
+    "mesh.Rectangular / Delaunay / Voronoi .mapper_grids_from(border_relocator=...). Input dtypes (kernel, relocator, "
+    "mesh): ~40% of the cases scale the scene to 8/20/60 units and round every coordinate to a whole number; the "
+    "data grid, the mesh vertices and (kernel) the border set are then handed over independently as float64 / float32 "
+    "/ int64 / int32 arrays or nested Python lists (of ints when whole), otherwise as float64 / float32 / list of "
+    "floats; the reference works on the float64 values of exactly what was handed over, and when a float32 set is "
+    "involved the tolerance / bands are 1e-4 / 1e-5 of the scale (the code then forms the centroid in single "
+    "precision). Results kept across calls: every array returned by the kernel, by relocated_grid_from / "
+    "relocated_mesh_grid_from (first grid, a second shifted+stretched grid with equally many points and vertices, back "
+    "on the first grid, and a mesh with exactly as many vertices as the data grid has points) and by two "
+    "mapper_grids_from calls sharing one relocator is snapshotted and compared (exact) after every later call, and "
+    "the first results are re-checked against their own oracle at the end. subborder: sub_border_slim / "
     "sub_border_grid on masks up to 10x10. Oracles: (1) the statement's rule re-implemented in plain numpy "
     "(centroid = mean of the border points = source grid at the sub-border indices, radii, nearest border point by "
     "squared distance, factor r_border/r_point applied iff < 1 and r_point > r_min) at atol 1e-10*scale "
@@ -43,7 +53,9 @@ ASSUMPTIONS = [
     "over-sampled sub-pixel order: pixels in row-major slim order, sub-pixels row-major inside each pixel, centres "
     "from the closed form centre(i,j) + ((s-1)/2 - a, b - (s-1)/2) * pixel_scale / s (verified independently by C02/C14)",
     "a coordinate the rule does not move is returned unchanged (bit-identical), including border points themselves",
-    "coordinates are finite doubles with |value| <= ~1e4 (no overflow in squared distances)",
+    "coordinates are finite with |value| <= ~1e4 (no overflow in squared distances, also for int32 input); unsigned and "
+    "sub-32-bit integer dtypes are not generated (their differences / squares wrap around inside numpy)",
+    "an array handed back by a relocation call belongs to the caller: later calls must not change it",
     "numba is absent, so the @jit kernels run as plain Python (same source, no compilation step)",
 ]
 TECHNIQUE = ("property-based testing (Hypothesis) against a plain-numpy re-implementation of the stated relocation rule "
@@ -51,6 +63,8 @@ TECHNIQUE = ("property-based testing (Hypothesis) against a plain-numpy re-imple
 
 TOL = 1e-10     # reference comparison, relative to the scene scale
 BAND = 1e-12    # tie bands (radius threshold, nearest border point, farthest sub-pixel), relative to scale
+TOL32 = 1e-4    # the same two numbers when a coordinate set is handed over in single precision (the code then
+BAND32 = 1e-5   # forms the centroid in float32: relative error ~1e-7 of the scale)
 
 
 # ---------------------------------------------------------------------------------------------
@@ -170,9 +184,11 @@ def _radii(v):
     return np.sqrt(v[:, 0] * v[:, 0] + v[:, 1] * v[:, 1])
 
 
-def check_relocation(ctx, pfx, got, grid, border, border_rows=()):
-    """Compares `got` with the statement's rule applied to `grid` against the border point set `border`.
-    `border_rows`: indices of grid rows that are border points themselves.  Returns (n_moved, n_outer_unmoved)
+def check_relocation(ctx, pfx, got, grid, border, border_rows=(), TOL=TOL, BAND=BAND, label=True):
+    """Compares `got` with the statement's rule applied to `grid` against the border point set `border`
+    (both taken at their float64 values, whatever dtype they were handed over in).
+    `border_rows`: indices of grid rows that are border points themselves.  TOL / BAND: reference tolerance
+    and tie band relative to the scene scale (TOL32 / BAND32 when single precision inputs are involved).  Returns (n_moved, n_outer_unmoved)
     according to the reference."""
     grid = np.asarray(grid, dtype=float).reshape(-1, 2)
     border = np.asarray(border, dtype=float).reshape(-1, 2)
@@ -279,6 +295,9 @@ def check_relocation(ctx, pfx, got, grid, border, border_rows=()):
             if np.abs(gs - es).max() <= atol:
                 ctx.fail(pfx + "/order", "output rows are a permutation of the expected rows; first misplaced row %d" % badrows[0])
         i = badrows[0]
+        if np.asarray(got).dtype.kind in "iub":
+            ctx.fail(pfx + "/integer-output", "output has dtype %s: point %d %s relocated to %s, want %s" % (
+                np.asarray(got).dtype, i, grid[i].tolist(), g[i].tolist(), expected[i].tolist()))
         if klass[i] in (2, 4) and np.abs(g[i] - grid[i]).max() <= atol:
             key = "/not-moved"
         elif klass[i] in (2, 4):
@@ -289,6 +308,8 @@ def check_relocation(ctx, pfx, got, grid, border, border_rows=()):
             i, grid[i].tolist(), r[i], g[i].tolist(), expected[i].tolist(), c.tolist(), rmin, len(border), atol))
     n_moved = int((klass == 2).sum())
     n_outer_unmoved = int((klass == 3).sum())
+    if not label:
+        return n_moved, n_outer_unmoved
     tag = pfx.split("/")[-1]
     ctx.label("%s:has-interior" % tag if (klass == 0).any() else "%s:no-interior" % tag)
     if (klass == 4).any():
@@ -300,6 +321,76 @@ def check_relocation(ctx, pfx, got, grid, border, border_rows=()):
     if n_moved and n_outer_unmoved:
         ctx.label("%s:moved+outer-unmoved" % tag)
     return n_moved, n_outer_unmoved
+
+
+# ---------------------------------------------------------------------------------------------
+# coordinate sets in the dtypes a caller can hand over
+# ---------------------------------------------------------------------------------------------
+FLOAT_KINDS = ["float64", "float64", "float64", "float32", "pylist"]
+WHOLE_KINDS = ["float64", "int64", "int64", "int32", "int32", "float32", "pylist"]
+
+
+def as_input(values, kind, whole, allow_list=True):
+    """Returns (container, ref): `container` is a fresh object of the requested kind (float64 / float32 / int64 /
+    int32 ndarray, or a nested Python list - of ints when `whole`), `ref` the float64 values of exactly what is
+    handed over (the reference works on these).  `whole` rounds to whole numbers first."""
+    v = np.array(values, dtype=float).reshape(-1, 2)
+    if whole:
+        v = np.rint(v)
+    if kind == "pylist" and not allow_list:
+        kind = "int64" if whole else "float64"
+    if kind in ("int64", "int32"):
+        assert whole
+        arr = v.astype(kind)
+    elif kind == "float32":
+        arr = v.astype(np.float32)
+    elif kind == "pylist":
+        arr = [[int(a), int(b)] for a, b in v] if whole else v.tolist()
+    else:
+        arr = v.copy()
+    return arr, np.array(arr, dtype=float).reshape(-1, 2)
+
+
+def whole_factor(whole, extent, maxabs):
+    """Scale factor that spreads `extent` over `whole` units while keeping |coordinates| <= 1e4."""
+    return min(float(whole) / max(extent, 1e-9), 1.0e4 / max(maxabs, 1e-9))
+
+
+def draw_dtypes(draw):
+    whole = draw(st.sampled_from([None, None, None, 8, 20, 60]))
+    kinds = WHOLE_KINDS if whole else FLOAT_KINDS
+    return whole, draw(st.sampled_from(kinds)), draw(st.sampled_from(kinds))
+
+
+def tolerances(*kinds):
+    return (TOL32, BAND32) if "float32" in kinds else (TOL, BAND)
+
+
+def rows_on_border(pts_ref, border_ref, candidates):
+    """Rows among `candidates` whose float64 value equals a border point exactly."""
+    out = []
+    for i in candidates:
+        if len(border_ref) and bool(((border_ref == pts_ref[i]).all(axis=1)).any()):
+            out.append(int(i))
+    return out
+
+
+class Kept:
+    """Results handed out earlier must not change when the same code serves later calls."""
+
+    def __init__(self, ctx, key):
+        self.ctx, self.key, self.items = ctx, key, []
+
+    def add(self, name, obj):
+        self.items.append((name, obj, np.array(obj, copy=True)))
+
+    def recheck(self, after):
+        for name, obj, snap in self.items:
+            now = np.asarray(obj)
+            self.ctx.comparisons += 1
+            if now.shape != snap.shape or not np.array_equal(now, snap):
+                bad = np.argwhere(now != snap)[:1].tolist() if now.shape == snap.shape else "shape"
+                self.ctx.fail(self.key, "the array returned by %s changed after %s (first difference at %s)" % (name, after, bad))
 
 
 # ---------------------------------------------------------------------------------------------
@@ -359,7 +450,8 @@ def kernel_case(draw):
         else:
             pts.append({"k": "between", "b": draw(st.integers(0, nb - 1)), "b2": draw(st.integers(0, nb - 1)),
                         "f": draw(st.floats(0.5, 3.0))})
-    return {"kind": kind, "border": border, "points": pts}
+    whole, gk, bk = draw_dtypes(draw)
+    return {"kind": kind, "border": border, "points": pts, "whole": whole, "grid_dtype": gk, "border_dtype": bk}
 
 
 def _kernel_points(case):
@@ -387,11 +479,34 @@ def body_kernel(case, ctx):
     ctx.label("border:%s" % case["kind"])
     for p in case["points"]:
         ctx.label("pt:%s" % p["k"])
-    grid_in = pts.copy()
-    got = grid_2d_util.relocated_grid_via_jit_from(grid=grid_in, border_grid=border.copy())
-    copies = [i for i, p in enumerate(case["points"]) if p["k"] == "copy"]
-    moved, outer = check_relocation(ctx, "kernel", got, pts, border, border_rows=copies)
+    whole = case.get("whole")
+    gk, bk = case.get("grid_dtype", "float64"), case.get("border_dtype", "float64")
+    gk = ("int64" if whole else "float64") if gk == "pylist" else gk     # the util kernel takes ndarrays only
+    bk = ("int64" if whole else "float64") if bk == "pylist" else bk
+    c = border.mean(axis=0)
+    if whole:
+        q = whole_factor(whole, float(np.abs(border - c).max()), max(float(np.abs(border).max()), float(np.abs(pts).max())))
+        border, pts, c = border * q, pts * q, c * q
+    ctx.label("dtype:grid-%s" % gk, "dtype:border-%s" % bk, "values:whole" if whole else "values:real")
+    if gk != bk:
+        ctx.label("dtype:mixed")
+    tol, band = tolerances(gk, bk)
+    border_in, border_ref = as_input(border, bk, whole, allow_list=False)
+    grid_in, pts_ref = as_input(pts, gk, whole, allow_list=False)
+    got = grid_2d_util.relocated_grid_via_jit_from(grid=grid_in, border_grid=border_in)
+    copies = rows_on_border(pts_ref, border_ref, [i for i, p in enumerate(case["points"]) if p["k"] == "copy"])
+    moved, outer = check_relocation(ctx, "kernel", got, pts_ref, border_ref, border_rows=copies, TOL=tol, BAND=band)
     ctx.nt(moved >= 1 and outer >= 1)
+    # a later call with another coordinate set of the same shape must leave the earlier result alone
+    kept = Kept(ctx, "kernel/kept-result-changed")
+    kept.add("the first call", got)
+    grid2_in, pts2_ref = as_input(c + 1.375 * (pts - c) + 0.25, gk, whole, allow_list=False)
+    got2 = grid_2d_util.relocated_grid_via_jit_from(grid=grid2_in, border_grid=as_input(border, bk, whole, allow_list=False)[0])
+    kept.recheck("a second call with an equally shaped coordinate set")
+    check_relocation(ctx, "kernel", got2, pts2_ref, border_ref, border_rows=(), TOL=tol, BAND=band, label=False)
+    ties = ctx.ties     # same points, same bands: not counted twice
+    check_relocation(ctx, "kernel/kept", got, pts_ref, border_ref, border_rows=copies, TOL=tol, BAND=band, label=False)
+    ctx.ties = ties
 
 
 # ---------------------------------------------------------------------------------------------
@@ -425,6 +540,7 @@ def reloc_case(draw, max_inner=8, with_mesh_type=False):
     case["vertices"] = [[draw(st.floats(-1.5, 2.5)), draw(st.floats(-1.5, 2.5))] for _ in range(nv)]
     case["vertex_inner"] = [[draw(st.integers(0, nv - 1)), draw(st.floats(0.0, 0.2))] for _ in range(draw(st.integers(0, 2)))]
     case["vertex_snap"] = [[draw(st.integers(0, nv - 1)), draw(st.integers(0, 50))] for _ in range(draw(st.integers(0, 2)))]
+    case["whole"], case["grid_dtype"], case["mesh_dtype"] = draw_dtypes(draw)
     if with_mesh_type:
         case["mesh"] = draw(st.sampled_from(["rectangular", "delaunay", "delaunay", "voronoi"]))
         case["rect_shape"] = [draw(st.integers(3, 5)), draw(st.integers(3, 5))]
@@ -489,67 +605,137 @@ def build_reloc_scene(case, ctx):
         verts[idx] = cb + f * (verts[idx] - cb)     # vertices well inside the smallest border radius
     for idx, k in case["vertex_snap"]:
         verts[idx] = src[gi[k % len(gi)]]
-    s.verts = verts
-    s.vertex_border_rows = [idx for idx, _ in case["vertex_snap"]]
+    # dtype classes: optionally whole-number coordinates, handed over as float64 / float32 / int64 / int32 arrays
+    # or nested Python lists; `src` / `verts` are the float64 values of what is handed over
+    s.whole = case.get("whole")
+    s.gk, s.mk = case.get("grid_dtype", "float64"), case.get("mesh_dtype", "float64")
+    if s.whole:
+        q = whole_factor(s.whole, float(span.max()), max(float(np.abs(src).max()), float(np.abs(verts).max())))
+        src, verts = src * q, verts * q
+    s.tol, s.band = tolerances(s.gk, s.mk)
+    s.src = as_input(src, s.gk, s.whole)[1]
+    s.verts = as_input(verts, s.mk, s.whole)[1]
+    s.vertex_border_rows = rows_on_border(s.verts, s.src[gi], [idx for idx, _ in case["vertex_snap"]])
+    ctx.label("dtype:grid-%s" % s.gk, "dtype:mesh-%s" % s.mk, "values:whole" if s.whole else "values:real")
+    if s.gk != s.mk:
+        ctx.label("dtype:mixed")
     return s
 
 
-def body_relocator(case, ctx):
+def grid_input(s, values):
+    """A fresh Grid2DIrregular of the scene's data-grid kind and the float64 values it holds."""
     import autoarray as aa
+    arr, ref = as_input(values, s.gk, s.whole)
+    return aa.Grid2DIrregular(values=arr), ref
+
+
+def mesh_input(s, values):
+    import autoarray as aa
+    arr, ref = as_input(values, s.mk, s.whole)
+    return aa.Grid2DIrregular(values=arr), ref
+
+
+def body_relocator(case, ctx):
     s = build_reloc_scene(case, ctx)
     if s is None:
         return
+    kw = dict(TOL=s.tol, BAND=s.band)
     border = s.src[s.bidx]
-    grid = aa.Grid2DIrregular(values=s.src.copy())
+    brows = [int(b) for b in s.bidx]
+    kept = Kept(ctx, "relocator/kept-result-changed")
+    grid, _ = grid_input(s, s.src)
     got = s.relocator.relocated_grid_from(grid=grid)
     ctx.check(len(got) == len(s.src), "relocator/grid/count", "relocated grid has %d rows, input %d" % (len(got), len(s.src)))
-    moved, outer = check_relocation(ctx, "relocator/grid", np.asarray(got), s.src, border, border_rows=[int(b) for b in s.bidx])
+    moved, outer = check_relocation(ctx, "relocator/grid", np.asarray(got), s.src, border, border_rows=brows, **kw)
     ctx.nt(moved >= 1 and outer >= 1)
-    mesh_in = aa.Grid2DIrregular(values=s.verts.copy())
+    kept.add("relocated_grid_from (first call)", got)
+    mesh_in, _ = mesh_input(s, s.verts)
     gotm = s.relocator.relocated_mesh_grid_from(grid=grid, mesh_grid=mesh_in)
-    check_relocation(ctx, "relocator/mesh", np.asarray(gotm), s.verts, border, border_rows=s.vertex_border_rows)
+    check_relocation(ctx, "relocator/mesh", np.asarray(gotm), s.verts, border, border_rows=s.vertex_border_rows, **kw)
+    kept.recheck("relocated_mesh_grid_from")
+    kept.add("relocated_mesh_grid_from (first call)", gotm)
     # a second call returns the same answer (cached sub-border indices)
-    again = s.relocator.relocated_grid_from(grid=aa.Grid2DIrregular(values=s.src.copy()))
+    again = s.relocator.relocated_grid_from(grid=grid_input(s, s.src)[0])
     ctx.equal(np.asarray(again), np.asarray(got), "relocator/grid/repeat", "second relocated_grid_from call")
+    kept.recheck("a second relocated_grid_from call on an equal grid")
     # the same relocator then serves a different source-plane grid (one relocator per dataset serves every model):
     # mesh and data relocation must use the border of the grid they are given, not of an earlier one
     # (added after the independently seeded change C18b)
     c0 = s.src.mean(axis=0)
     span = np.maximum(s.src.max(axis=0) - s.src.min(axis=0), 1e-3)
-    src2 = c0 + 1.75 * (s.src - c0) + np.array([0.375, -0.25]) * span
-    verts2 = c0 + 1.75 * (s.verts - c0) + np.array([0.375, -0.25]) * span
+    grid2, src2 = grid_input(s, c0 + 1.75 * (s.src - c0) + np.array([0.375, -0.25]) * span)
+    mesh2, verts2 = mesh_input(s, c0 + 1.75 * (s.verts - c0) + np.array([0.375, -0.25]) * span)
     border2 = src2[s.bidx]
-    grid2 = aa.Grid2DIrregular(values=src2.copy())
-    gotm2 = s.relocator.relocated_mesh_grid_from(grid=grid2, mesh_grid=aa.Grid2DIrregular(values=verts2.copy()))
-    check_relocation(ctx, "relocator/reuse/mesh", np.asarray(gotm2), verts2, border2, border_rows=s.vertex_border_rows)
+    vrows2 = rows_on_border(verts2, border2, s.vertex_border_rows)
+    gotm2 = s.relocator.relocated_mesh_grid_from(grid=grid2, mesh_grid=mesh2)
+    check_relocation(ctx, "relocator/reuse/mesh", np.asarray(gotm2), verts2, border2, border_rows=vrows2, label=False, **kw)
+    kept.recheck("relocated_mesh_grid_from on a second grid (equally many vertices)")
+    kept.add("relocated_mesh_grid_from (second grid)", gotm2)
     got2 = s.relocator.relocated_grid_from(grid=grid2)
-    check_relocation(ctx, "relocator/reuse/grid", np.asarray(got2), src2, border2, border_rows=[int(b) for b in s.bidx])
-    gotm3 = s.relocator.relocated_mesh_grid_from(grid=grid, mesh_grid=mesh_in)
-    check_relocation(ctx, "relocator/reuse/mesh-back", np.asarray(gotm3), s.verts, border, border_rows=s.vertex_border_rows)
+    check_relocation(ctx, "relocator/reuse/grid", np.asarray(got2), src2, border2, border_rows=brows, label=False, **kw)
+    kept.recheck("relocated_grid_from on a second grid (equal length)")
+    kept.add("relocated_grid_from (second grid)", got2)
+    gotm3 = s.relocator.relocated_mesh_grid_from(grid=grid, mesh_grid=mesh_input(s, s.verts)[0])
+    check_relocation(ctx, "relocator/reuse/mesh-back", np.asarray(gotm3), s.verts, border, border_rows=s.vertex_border_rows,
+                     label=False, **kw)
+    kept.recheck("relocated_mesh_grid_from back on the first grid")
+    # a mesh with exactly as many vertices as the data grid has sub-pixels (the two result shapes coincide)
+    meshn, vertsn = mesh_input(s, c0 + 1.3 * (s.src[::-1] - c0) - np.array([0.125, 0.3125]) * span)
+    gotmn = s.relocator.relocated_mesh_grid_from(grid=grid, mesh_grid=meshn)
+    check_relocation(ctx, "relocator/reuse/mesh-as-long-as-grid", np.asarray(gotmn), vertsn, border,
+                     border_rows=rows_on_border(vertsn, border, range(len(vertsn))), label=False, **kw)
+    kept.recheck("relocated_mesh_grid_from with as many vertices as the data grid has points")
+    # the results handed out first still satisfy their own oracle after all later calls
+    ties = ctx.ties     # same points, same bands: not counted twice
+    check_relocation(ctx, "relocator/kept/grid", np.asarray(got), s.src, border, border_rows=brows, label=False, **kw)
+    check_relocation(ctx, "relocator/kept/mesh", np.asarray(gotm), s.verts, border, border_rows=s.vertex_border_rows,
+                     label=False, **kw)
+    ctx.ties = ties
+
+
+def _mapper_grids(s, case, grid, mesh_grid):
+    import autoarray as aa
+    kind = case["mesh"]
+    if kind == "rectangular":
+        mesh = aa.mesh.Rectangular(shape=tuple(case["rect_shape"]))
+        return mesh.mapper_grids_from(mask=s.mask, source_plane_data_grid=grid, border_relocator=s.relocator)
+    mesh = aa.mesh.Delaunay() if kind == "delaunay" else aa.mesh.Voronoi()
+    return mesh.mapper_grids_from(mask=s.mask, source_plane_data_grid=grid, border_relocator=s.relocator,
+                                  source_plane_mesh_grid=mesh_grid)
 
 
 def body_mesh(case, ctx):
-    import autoarray as aa
     s = build_reloc_scene(case, ctx)
     if s is None:
         return
+    kw = dict(TOL=s.tol, BAND=s.band)
     border = s.src[s.bidx]
-    grid = aa.Grid2DIrregular(values=s.src.copy())
+    brows = [int(b) for b in s.bidx]
     kind = case["mesh"]
     ctx.label("mesh:%s" % kind)
-    if kind == "rectangular":
-        mesh = aa.mesh.Rectangular(shape=tuple(case["rect_shape"]))
-        mg = mesh.mapper_grids_from(mask=s.mask, source_plane_data_grid=grid, border_relocator=s.relocator)
-    else:
-        mesh = aa.mesh.Delaunay() if kind == "delaunay" else aa.mesh.Voronoi()
-        mg = mesh.mapper_grids_from(mask=s.mask, source_plane_data_grid=grid, border_relocator=s.relocator,
-                                    source_plane_mesh_grid=aa.Grid2DIrregular(values=s.verts.copy()))
+    mg = _mapper_grids(s, case, grid_input(s, s.src)[0], mesh_input(s, s.verts)[0])
     moved, outer = check_relocation(ctx, "mesh/%s/data-grid" % kind, np.asarray(mg.source_plane_data_grid), s.src, border,
-                                    border_rows=[int(b) for b in s.bidx])
+                                    border_rows=brows, **kw)
     ctx.nt(moved >= 1 and outer >= 1)
+    kept = Kept(ctx, "mesh/%s/kept-result-changed" % kind)
+    kept.add("mapper_grids_from(...).source_plane_data_grid", mg.source_plane_data_grid)
     if kind != "rectangular":
         check_relocation(ctx, "mesh/%s/mesh-grid" % kind, np.asarray(mg.source_plane_mesh_grid), s.verts, border,
-                                  border_rows=s.vertex_border_rows)
+                         border_rows=s.vertex_border_rows, **kw)
+        kept.add("mapper_grids_from(...).source_plane_mesh_grid", mg.source_plane_mesh_grid)
+    # the same relocator builds the grids of a second model; the first model's grids must stay what they were
+    c0 = s.src.mean(axis=0)
+    span = np.maximum(s.src.max(axis=0) - s.src.min(axis=0), 1e-3)
+    grid2, src2 = grid_input(s, c0 + 1.75 * (s.src - c0) + np.array([0.375, -0.25]) * span)
+    mesh2, verts2 = mesh_input(s, c0 + 1.75 * (s.verts - c0) + np.array([0.375, -0.25]) * span)
+    border2 = src2[s.bidx]
+    mg2 = _mapper_grids(s, case, grid2, mesh2)
+    kept.recheck("a second mapper_grids_from call with the same relocator")
+    check_relocation(ctx, "mesh/%s/reuse/data-grid" % kind, np.asarray(mg2.source_plane_data_grid), src2, border2,
+                     border_rows=brows, label=False, **kw)
+    if kind != "rectangular":
+        check_relocation(ctx, "mesh/%s/reuse/mesh-grid" % kind, np.asarray(mg2.source_plane_mesh_grid), verts2, border2,
+                         border_rows=rows_on_border(verts2, border2, s.vertex_border_rows), label=False, **kw)
 
 
 # ---------------------------------------------------------------------------------------------
